@@ -63,8 +63,8 @@ type stream struct {
 	stopCh                       chan struct{}
 	consumer                     models.Consumer
 	bucketInfo                   *couchbase.BucketInfo
-	finishStreamWithEndEventCh   chan struct{}
-	finishStreamWithCloseCh      chan struct{}
+	finishStreamWithEndEventCh   chan bool
+	finishStreamWithCloseCh      chan bool
 	offsets                      *wrapper.ConcurrentSwissMap[uint16, *models.Offset]
 	observers                    *wrapper.ConcurrentSwissMap[uint16, couchbase.Observer]
 	collectionIDs                map[uint32]string
@@ -215,7 +215,7 @@ func (s *stream) listenEnd(endContext models.DcpStreamEndContext) {
 	} else {
 		activeStreams := s.activeStreams.Add(-1)
 		if activeStreams == 0 && !s.streamFinishedWithCloseCh {
-			s.finishStreamWithEndEventCh <- struct{}{}
+			s.finishStreamWithEndEventCh <- s.balancing
 		}
 	}
 }
@@ -399,15 +399,20 @@ func (s *stream) closeAllStreams() {
 	}
 }
 
+// wait blocks until the stream session is finished. The token carries whether the stream was
+// finished as part of a rebalance when it was sent: s.balancing may already have been lowered by the
+// reopen when this goroutine gets to run, and a rebalance must not stop the client.
 func (s *stream) wait() {
+	var balancing bool
+
 	select {
-	case <-s.finishStreamWithCloseCh:
+	case balancing = <-s.finishStreamWithCloseCh:
 		s.streamFinishedWithCloseCh = true
-	case <-s.finishStreamWithEndEventCh:
+	case balancing = <-s.finishStreamWithEndEventCh:
 		s.streamFinishedWithEndEventCh = true
 	}
 
-	if !s.balancing {
+	if !balancing {
 		close(s.stopCh)
 	}
 }
@@ -446,7 +451,7 @@ func (s *stream) Close(closeWithCancel bool) {
 	s.open = false
 
 	if !s.streamFinishedWithEndEventCh {
-		s.finishStreamWithCloseCh <- struct{}{}
+		s.finishStreamWithCloseCh <- s.balancing
 	}
 }
 
@@ -491,8 +496,8 @@ func NewStream(client couchbase.Client,
 		bucketInfo:                 bucketInfo,
 		vBucketDiscovery:           vBucketDiscovery,
 		collectionIDs:              collectionIDs,
-		finishStreamWithCloseCh:    make(chan struct{}, 1),
-		finishStreamWithEndEventCh: make(chan struct{}, 1),
+		finishStreamWithCloseCh:    make(chan bool, 1),
+		finishStreamWithEndEventCh: make(chan bool, 1),
 		stopCh:                     stopCh,
 		eventHandler:               eventHandler,
 		metric:                     &Metric{},
